@@ -57,6 +57,43 @@ func c13(c *Ctx) {
 	c.Op(fmt.Sprintf("params %d %d", params.TermDuration, params.InterimDuration), "ok")
 	// term 0: deputies 100.., term 1: deputies 200.. (first `shared` of them reuse term-0 addresses)
 	heights := []uint32{1, 2, 5, 13, 14, 15, 20, 24, 25}
+	// Go's integer-division panics: a term without deputies (nothing loaded for the height) and a zero timeout.
+	// The stamp checks come first: only stamps that pass both reach the division.
+	{
+		dm0 := deputynode.NewManager(5, noBlocks{})
+		dm3 := deputynode.NewManager(5, noBlocks{})
+		dm3.SaveSnapshot(0, mkDeputies(3, 100))
+		for i := 0; i < 24; i++ {
+			pts := uint32(20000000 + c.Rnd.Intn(1000000))
+			mt := int64(pts)*1000 + int64(c.Rnd.Intn(50000))
+			switch c.Rnd.Intn(4) {
+			case 0:
+				mt = int64(c.Rnd.Intn(1000000)) // below 1e10: error before the division
+			case 1:
+				mt = int64(pts)*1000 - 1 - int64(c.Rnd.Intn(5000)) // before the parent: error before the division
+			}
+			n, T, dm := 0, int64(1000*(1+c.Rnd.Intn(20))), dm0
+			if i%2 == 1 {
+				n, T, dm = 3, 0, dm3
+			}
+			hdr := &types.Header{Height: 4, Time: pts, MinerAddress: common.BigToAddress(big.NewInt(100))}
+			out := Safe(func() string {
+				a, err := consensus.GetCorrectMiner(hdr, mt, T, dm)
+				if err == consensus.ErrSmallerMineTime {
+					return "err ErrSmallerMineTime"
+				}
+				if err == deputynode.ErrNotDeputy {
+					return "err ErrNotDeputy"
+				}
+				if err != nil {
+					return "err " + err.Error()
+				}
+				return fmt.Sprintf("ok %v", a == common.Address{})
+			})
+			c.Op(fmt.Sprintf("cm %d false 0 %d 4 %d %d", n, pts, mt, T), out)
+			c.Count(fmt.Sprintf("cm-zero-round:n=%d:T0=%v:%s", n, T == 0, firstWord(out)))
+		}
+	}
 	iter := 0
 	for iter < c.N {
 		n0 := 1 + c.Rnd.Intn(maxN)
